@@ -279,9 +279,9 @@ def harnesses(tier):
     hs.append((Harness(PROP, "json-text", h_json_text, {}, "JSON form rendered and parsed character by character: 4 concrete seconds x 4 offsets x 5 ids, symbolic microsecond and duration"), 600))
     hs.append((Harness(PROP, "iso-string-inputs", h_iso_strings, {}, "timestamps given as ISO-8601 strings: %d dates x %d fractions x %d offsets (Z, positive, negative with minutes, compact), symbolic duration" % (len(ISO_DATES), len(ISO_FRACTIONS), len(ISO_OFFSETS))), 600))
     hs.append((Harness(PROP, "bad-duration", h_bad_duration, {}, "non-number durations raise TypeError"), 60))
-    hs.append((Harness(PROP, "ieee-ms-floor", h_ms_floor_ieee, {}, "real _timestamp_parse with IEEE-rounded division: all 10^6 microsecond values at any date"), 600))
+    hs.append((Harness(PROP, "ieee-ms-floor", h_ms_floor_ieee, {}, "real _timestamp_parse with IEEE-rounded division: all 10^6 microsecond values at any date", cross_solver=2), 600))
     hs.append((Harness(PROP, "ieee-float-duration", h_float_duration_ieee, {}, "Event(duration=float seconds) under IEEE rounding"), 600))
-    hs.append((Harness(PROP, "ieee-json-duration", h_json_duration_ieee, {}, "duration -> total_seconds() -> timedelta(seconds=) under IEEE rounding, every whole microsecond in [0, 30 d], per binade", split_depth=3), 900))
+    hs.append((Harness(PROP, "ieee-json-duration", h_json_duration_ieee, {}, "duration -> total_seconds() -> timedelta(seconds=) under IEEE rounding, every whole microsecond in [0, 30 d], per binade", split_depth=3, cross_solver=3), 900))
     return hs
 
 
